@@ -131,13 +131,16 @@ func TestC06(t *testing.T) {
 			}
 		}
 		one(base) // no injected fault: coercion failures only
-		kinds := []string{"err", "group", "ext", "wgroup"}
+		kinds := []string{"err", "group", "ext", "wgroup", "lext"}
 		mkFault := func(site string, label string) hx.Fault {
 			n, f := parseSite(site)
 			fl := hx.Fault{Node: n, Field: f, Kind: rapid.SampledFrom(kinds).Draw(rt, label+"kind")}
 			if fl.Kind == "group" || fl.Kind == "wgroup" {
 				fl.N = rapid.IntRange(1, 3).Draw(rt, label+"n")
 				fl.Same = fl.Kind == "group" && rapid.IntRange(0, 2).Draw(rt, label+"same") == 0
+			}
+			if fl.Kind == "lext" {
+				fl.N = rapid.IntRange(0, 3).Draw(rt, label+"n")
 			}
 			// list accessor failure (root resolver's Nth) when the site holds a non-empty list
 			if base.AnyInstalled {
